@@ -495,6 +495,10 @@ def rule_det(rep: Report, rid="C15.det") -> None:
             if isinstance(node, (ast.For, ast.comprehension)) and isinstance(node.iter, ast.Call) and isinstance(node.iter.func, ast.Name) \
                     and node.iter.func.id in ("set", "frozenset"):
                 bad = "iteration over set(...) (order of strings varies between runs)"
+            if isinstance(node, ast.Call) and isinstance(node.func, (ast.Name, ast.Attribute)) and len(node.args) >= 1 \
+                    and (getattr(node.func, "id", None) in ("list", "tuple", "enumerate", "iter", "next", "zip", "map", "filter", "chain") or getattr(node.func, "attr", None) in ("join", "extend", "chain")) \
+                    and any(isinstance(a, (ast.Set, ast.SetComp)) or (isinstance(a, ast.Call) and isinstance(a.func, ast.Name) and a.func.id in ("set", "frozenset")) for a in node.args):
+                bad = "a set turned into a sequence (order of strings varies between runs); sorted(...) gives a fixed order"
             if isinstance(node, (ast.Attribute, ast.Name)) and xdotted(node, fi.module) in ("os.environ",):
                 bad = "os.environ"
             if bad:
